@@ -89,6 +89,7 @@ class LeanBackend:
     def same_dir(self, ts, a, b, d): return self._ap("same_dir", ts, a, b, d)
     # ints / optints
     def i(self, n): return f"({n} : Int)"
+    def neg(self, a): return f"-{p(a)}"
     def emod(self, a, b): return f"{p(a)} % {p(b)}"
     def ediv(self, a, b): return f"{p(a)} / {p(b)}"
     def add(self, a, b): return f"{p(a)} + {p(b)}"
@@ -147,7 +148,7 @@ def main() -> int:
     here = os.path.dirname(os.path.dirname(os.path.abspath(__file__)))
     src = open(os.path.join(here, "lean", "RelAlg", "Laws.lean")).read()
     print("/-\n  GENERATED by /verif/spec/leanprint.py from the law table /verif/spec/laws.py -- do not edit.\n"
-          "  Each `example` states a law exactly as the table prints it (the same entry gives the SMT axiom) and is closed by the\n"
+          "  Each `example` states a law exactly as the table prints it (the same entry gives the formula the SMT side assumes) and is closed by the\n"
           "  hand-written theorem of RelAlg/Laws.lean: it compiles iff that theorem proves the generated statement.\n-/")
     print("import RelAlg.Laws\n\nnamespace RelAlg.Generated\n\nopen Classical RelAlg\n")
     for l in L.LAWS:
